@@ -205,5 +205,59 @@ theorem factorize_map {G : V → Prop} {isZero : V → Bool} {inv : V → V} {is
       exact this
 
 end factor
+section solve
+variable [Zero V] [Zero V'] [Zero R] [Sub R] [HMul V R R] [Zero R'] [Sub R'] [HMul V' R' R']
+variable {φ : V → V'} {ψ : R → R'}
+
+/-- `ψ` is compatible with the product `V * R → R` and with `-` -/
+structure ActHom (φ : V → V') (ψ : R → R') : Prop where
+  zeroV : φ 0 = 0
+  zero : ψ 0 = 0
+  act : ∀ (a : V) (r : R), ψ (a * r) = φ a * ψ r
+  sub : ∀ r s : R, ψ (r - s) = ψ r - ψ s
+
+theorem fwdStep_map (h : ActHom φ ψ) (S : Skyline V R) (rhs y : Array R) (i : Nat) :
+    fwdStep (S.map φ ψ) (rhs.map ψ) (y.map ψ) i = (fwdStep S rhs y i).map ψ := by
+  unfold fwdStep
+  show (y.map ψ).setIfInBounds i ((S.D.map φ).getD i 0 * (List.range' (S.P i) (S.P (i + 1) - S.P i)).foldl
+      (fun s k => s - (S.L.map φ).getD k 0 * (y.map ψ).getD (i + k - S.P (i + 1)) 0)
+      ((rhs.map ψ).getD (S.perm.getD i 0) 0)) = _
+  rw [Array.map_setIfInBounds, h.act, getD_map φ h.zeroV, getD_map ψ h.zero]
+  congr 2
+  apply List.foldl_hom ψ
+  intro x k
+  rw [h.sub, h.act, getD_map φ h.zeroV, getD_map ψ h.zero]
+
+theorem bwdStep_map (h : ActHom φ ψ) (S : Skyline V R) (y : Array R) (j : Nat) :
+    bwdStep (S.map φ ψ) (y.map ψ) j = (bwdStep S y j).map ψ := by
+  unfold bwdStep
+  show (List.range' (S.P j) (S.P (j + 1) - S.P j)).foldl (fun y k =>
+      y.setIfInBounds (j + k - S.P (j + 1)) (y.getD (j + k - S.P (j + 1)) 0 - (S.U.map φ).getD k 0 * y.getD j 0)) (y.map ψ) = _
+  apply List.foldl_hom (Array.map ψ)
+  intro y k
+  rw [Array.map_setIfInBounds, h.sub, h.act, getD_map φ h.zeroV, getD_map ψ h.zero, getD_map ψ h.zero]
+
+/-- **`operator()` commutes with the entrywise image** -/
+theorem solve_map (h : ActHom φ ψ) (S : Skyline V R) (rhs x : Array R) :
+    solve (S.map φ ψ) (rhs.map ψ) (x.map ψ) = ((solve S rhs x).1.map ψ, (solve S rhs x).2.map ψ) := by
+  unfold solve
+  have e1 : (List.range S.n).foldl (fwdStep (S.map φ ψ) (rhs.map ψ)) (S.y.map ψ)
+      = ((List.range S.n).foldl (fwdStep S rhs) S.y).map ψ :=
+    List.foldl_hom (Array.map ψ) (fun y i => fwdStep_map h S rhs y i)
+  have e2 : ∀ Y : Array R, (List.range S.n).reverse.foldl (bwdStep (S.map φ ψ)) (Y.map ψ)
+      = ((List.range S.n).reverse.foldl (bwdStep S) Y).map ψ :=
+    fun Y => List.foldl_hom (Array.map ψ) (fun y j => bwdStep_map h S y j)
+  have e3 : ∀ Y : Array R, (List.range S.n).foldl (fun x i => x.setIfInBounds (S.perm.getD i 0) ((Y.map ψ).getD i 0)) (x.map ψ)
+      = ((List.range S.n).foldl (fun x i => x.setIfInBounds (S.perm.getD i 0) (Y.getD i 0)) x).map ψ :=
+    fun Y => List.foldl_hom (Array.map ψ) (fun x i => by rw [Array.map_setIfInBounds, getD_map ψ h.zero])
+  show ((List.range S.n).foldl (fun x i => x.setIfInBounds (S.perm.getD i 0)
+        (((List.range S.n).reverse.foldl (bwdStep (S.map φ ψ))
+          ((List.range S.n).foldl (fwdStep (S.map φ ψ) (rhs.map ψ)) (S.y.map ψ))).getD i 0)) (x.map ψ),
+      (List.range S.n).reverse.foldl (bwdStep (S.map φ ψ))
+          ((List.range S.n).foldl (fwdStep (S.map φ ψ) (rhs.map ψ)) (S.y.map ψ))) = _
+  rw [e1, e2, e3]
+
+end solve
+
 end Skyline
 end Amgcl
